@@ -419,7 +419,8 @@ pub fn gen_c08_with(rng: &mut Rng, tier: Tier, real_scale: bool) -> Case {
         inserts.push((B(key), B(val)));
         i += 1;
     }
-    Case::Sort(SortCase {
+    let fault_k = if rng.chance(1, 5) { Some(rng.log_uniform(1, 4000)) } else { None };
+    let mut c08 = SortCase {
         inserts: Entries::Literal(inserts),
         knobs,
         alt_knobs: vec![],
@@ -428,7 +429,12 @@ pub fn gen_c08_with(rng: &mut Rng, tier: Tier, real_scale: bool) -> Case {
         out_knobs: Knobs::default_knobs(),
         // the monitors sit at the creator seam; byte-wise chunk I/O adds cost, not reach
         env: if rng.chance(2, 3) { crate::env::EnvPlan { buffered: rng.chance(1, 2), ..crate::env::EnvPlan::whole() } } else { gen::gen_env(rng, true) },
-    })
+    };
+    if let Some(k) = fault_k {
+        // err % 4 == 0: the creator (or a chunk) fails with a plain io::Error
+        c08.env.faults = vec![crate::env::FaultSpec { k, err: 4 * rng.below(9) as u8 }];
+    }
+    Case::Sort(c08)
 }
 
 pub fn check_c08(case: &Case, st: &mut Stats) -> Verdict {
@@ -443,13 +449,26 @@ pub fn check_c08(case: &Case, st: &mut Stats) -> Verdict {
     let max_chunks = knobs.max_nb_chunks.unwrap_or(25).max(1) as i64;
     let live_before = crate::alloc::thread_live();
     let _ = crate::alloc::thread_peak_reset();
-    let r = run_case(case, &c.env, &RunOpts::default());
+    let mut opts = RunOpts::default();
+    opts.lean = c.inserts.len() > 50_000;
+    // transient-fault family: a failing component (here: the chunk creator) makes one insert
+    // return Err; the caller keeps inserting and the bounds must keep holding
+    opts.continue_after_err = !c.env.faults.is_empty();
+    let r = run_case(case, &c.env, &opts);
     let heap_peak = crate::alloc::thread_peak_reset();
     st.absorb_env(&r);
     absorb_sort_reach(st, &r, knobs);
-    if let Some((i, rec)) = first_bad(&r.recs) {
-        let o = if rec.res.is_panic() { "panic" } else { "err" };
-        return viol("C08", &format!("{}.{}", o, rec.op), format!("call #{} {} -> {}", i, rec.op, rec.res.short()));
+    let fired = r.env.fired();
+    let faulty = !fired.is_empty();
+    for (i, rec) in r.recs.iter().enumerate() {
+        let injected = rec.res.is_err() && fired.iter().any(|f| rec.clock_before < f.k && f.k <= rec.clock_after);
+        if rec.res.is_panic() || (rec.res.is_err() && !injected) {
+            let o = if rec.res.is_panic() { "panic" } else { "err" };
+            return viol("C08", &format!("{}.{}", o, rec.op), format!("call #{} {} -> {}", i, rec.op, rec.res.short()));
+        }
+    }
+    if faulty {
+        st.c.inc("fired.transient_component_fault_then_inserts_continue");
     }
     let e = r.env.0.borrow();
     let total_volume: u64 = match &c.inserts {
@@ -474,6 +493,13 @@ pub fn check_c08(case: &Case, st: &mut Stats) -> Verdict {
         return viol("C08", "live-chunks", format!("{} chunks were alive at once; maximum configured {} (+2)", e.max_live_chunks, max_chunks));
     }
     let accounted: u64 = e.create_windows.iter().sum::<u64>() + e.window_volume;
+    if faulty {
+        // after a failed call the rejected entry is not part of the accounting; only the bounds above are judged
+        let h = fnv1a(format!("{:?}{}f", knobs, total_volume).as_bytes());
+        st.distinct.insert(h);
+        st.nontrivial.insert(h);
+        return None;
+    }
     if accounted != total_volume {
         return viol("C08", "harness-accounting", format!("volume accounting mismatch {} vs {}", accounted, total_volume));
     }
